@@ -35,6 +35,25 @@ def main():
     g.append({'id': hszinc.Ref('r0'), 'a': 1.0, 'b': 'x', 'siteRef': hszinc.Ref('r1')})
     g.append({'id': hszinc.Ref('r1'), 'a': hszinc.Quantity(5.0, 'kg'), 'b': hszinc.Uri('u'), 'c': hszinc.MARKER})
     g.append({'id': 'r2', 'a': 'CANARY', 'b': None, 'c': hszinc.XStr('hex', '00')})
+    # a row whose id carries a display name (found by the scan of _follow_ref only) and rows that point to it
+    g.append({'id': hszinc.Ref('s1', 'Site 1'), 'a': 2.0, 'b': 'site'})
+    g.append({'id': hszinc.Ref('r4'), 'a': 3.0, 'siteRef': hszinc.Ref('s1')})
+    g.append({'id': hszinc.Ref('r5'), 'a': 4.0, 'siteRef': hszinc.Ref('s1', 'other label')})
+    PROBES = ['r0', '@r0', 'r1', '@r1', 'r2', '@r2', 's1', '@s1', '@s1 "Site 1"', 'Site 1', 'r4', '@r4', 'r5', 'zz', '', 'None']
+
+    def lookups():
+        """what the grid answers to look-ups by key: the position of the row handed back (the lazily built index itself is not state,
+        what it answers is)"""
+        rows = list(g)
+        out = []
+        for k in PROBES:
+            r = g.get(k)
+            try:
+                r2 = g[k]
+            except KeyError:
+                r2 = None
+            out.append((k, None if r is None else [i for i, x in enumerate(rows) if x is r], None if r2 is None else [i for i, x in enumerate(rows) if x is r2]))
+        return out, [id(x) for x in rows]
     # warm up every lazily imported module before arming
     for w in ('a', 'a == 1 and not b or c->d', 'a == "x"', 'a == `u`', 'a == @r "d"', 'a == 2020-01-01', 'a == 12:00:00', 'a == 2020-01-01T00:00:00Z UTC',
               'a == C(1,2)', 'a == Bin(x)', 'a == hex("00")', 'a == [1]', 'a == {x:1}', 'a == 5kg', 'a == NA', 'a =='):
@@ -44,6 +63,7 @@ def main():
             pass
     sys.addaudithook(hook)
     snap_grid = codec.canon(g)
+    snap_look = lookups()
     reports = []
     for text in req['filters']:
         mods = set(sys.modules)
@@ -79,6 +99,10 @@ def main():
             problems.append('the hszinc namespace changed')
         if codec.canon(g) != snap_grid:
             problems.append('the grid was modified')
+        now = lookups()
+        if now != snap_look:
+            problems.append('the grid answers look-ups by key differently after the evaluation: %r' % ([(a, b) for a, b in zip(snap_look[0], now[0]) if a != b][:3],))
+            snap_look = now
         reports.append({'filter': text, 'outcome': outcome, 'events': events[:40], 'problems': problems})
     json.dump({'reports': reports}, sys.stdout)
 
